@@ -20,5 +20,6 @@ INVARIANT CancelReturnsCtx
 INVARIANT CancelCloses
 INVARIANT CancelPacketOnce
 INVARIANT NoOrphans
+INVARIANT NoInfoRace
 
 CHECK_DEADLOCK FALSE
